@@ -66,7 +66,7 @@ Definition oref_of (o : obj) : oref :=
    exit(path,key,old parent,new parent,new items) *)
 Inductive event :=
 | EEnter (p : path) (k : key) (r : oref) (s : sview)
-| EVisit (p : path) (k : key) (s : val)
+| EVisit (p : path) (k : key) (r : oref) (s : val)      (* r: WHICH object was handed to visit *)
 | EExit (p : path) (k : key) (id : nat) (items : list (key * sview)).   (* exit(path, key, old, new, new_items) *)
 
 Definition shallow_items (items : list (key * obj)) : list (key * sview) :=
@@ -87,7 +87,7 @@ Section Recursive.
   Definition do_visit (p : path) (ky : key) (v : obj) (lg : list event) : option (key * obj) * list event :=
     match visit with
     | None => (Some (ky, v), lg)
-    | Some f => (apply_action oval (f p ky (erase v)) ky v, lg ++ [EVisit p ky (erase v)])
+    | Some f => (apply_action oval (f p ky (erase v)) ky v, lg ++ [EVisit p ky (oref_of v) (erase v)])
     end.
 
   (* the rebuilt value of the occurrence [o] found under key [ky] at path [p];
@@ -199,7 +199,7 @@ Definition spec_result (visit : option visit_fn) (root : obj) : res obj :=
 
 Definition spec_visits (visit : option visit_fn) (root : obj) : list event :=
   match spec_remap visit root with
-  | Done _ _ lg | Fail _ lg => filter (fun e => match e with EVisit _ _ _ => true | _ => false end) lg
+  | Done _ _ lg | Fail _ lg => filter (fun e => match e with EVisit _ _ _ _ => true | _ => false end) lg
   | _ => []
   end.
 
